@@ -782,13 +782,13 @@ package app
 //@ func (*app.App).enableSemiSyncOnSlave
 //@   requires c20 [safety]: regd(app.cluster, host)
 //@ func (*app.App).performSwitchover
-//@   requires c20 [safety]: statesOK(app, clusterState) && clusterState[oldMaster] != nil && listOK(clusterState, activeNodes) && optOK(app)
+//@   requires c20 [safety]: statesOK(app, clusterState) && clusterState[oldMaster] != nil && optOK(app)
 //@ func (*app.App).performSwitchover$1
-//@   requires c20 [safety]: clusterState[host] != nil && regd(app.cluster, host)
+//@   requires c20 [safety]: statesOK(app, clusterState)
 //@ func (*app.App).performSwitchover$2
-//@   requires c20 [safety]: clusterState[host] != nil && regd(app.cluster, host)
+//@   requires c20 [safety]: statesOK(app, clusterState)
 //@ func (*app.App).performSwitchover$3
-//@   requires c20 [safety]: clusterState[host] != nil && regd(app.cluster, host)
+//@   requires c20 [safety]: statesOK(app, clusterState)
 //@ func (*app.App).getNodePositions$1
 //@   requires c20 [safety]: regd(app.cluster, host)
 //@ func (*app.App).getNodePositions
@@ -798,13 +798,11 @@ package app
 //@ func (*app.App).CheckAsyncSwitchAllowed
 //@   requires c20 [safety]: node != nil && switchover != nil
 //@ func (*app.App).stopActiveNodeOptimization
-//@   requires c20 [safety]: regd(app.cluster, oldMaster) && (forall i int :: in_range(i, activeNodes) ==> regd(app.cluster, activeNodes[i])) && optOK(app)
+//@   requires c20 [safety]: regd(app.cluster, oldMaster) && optOK(app)
 //@ func (*app.App).optimizationPhase
 //@   requires c20 [safety]: optOK(app) && statesOK(app, clusterState) && listOK(clusterState, activeNodes)
 //@ func (*app.App).checkHAReplicasRunning$1
 //@   requires c20 [safety]: regd(app.cluster, host) && local != nil
-//@ func (*app.App).enterMaintenance
-//@   requires c20 [safety]: regd(app.cluster, master)
 //@ func (*app.App).leaveMaintenance
 //@   requires c20 [safety]: optOK(app)
 //@ func (*app.App).tryLeaveMaintenance
@@ -827,3 +825,5 @@ package app
 //@   requires c20 [safety]: app != nil && appOK(app) && node != nil
 //@ func app.ChangeSourceAlgorithm
 //@   requires c20 [safety]: app != nil && appOK(app) && node != nil
+//@ func (*app.App).updateReplMonTS
+//@   requires c20 [safety]: regd(app.cluster, master)
